@@ -237,8 +237,8 @@ def run(p, report, tier):
                        "the availability mask inherits a non-boolean dtype (e.g. of y): `~A` raises for float arrays")
     # ---------------- R7.3 / R7.5 on the wrapper and IntervalEstimationThreshold
     sa = p.get_class("SingleAnnotatorWrapper")
-    q = sa.methods.get("_query_annotators")
-    g = sa.methods.get("_get_order_preserving_s_query")
+    q = c01.method_by_role(sa, "_query_annotators", lambda n: c01._calls(n, {"rand_argmax"}) and any(isinstance(x, (ast.For, ast.While)) for x in ast.walk(n)))
+    g = c01.method_by_role(sa, "_get_order_preserving_s_query", lambda n: c01._calls(n, {"rankdata"}))
     sq = sa.methods.get("query")
     ie = p.get_method("IntervalEstimationThreshold", "query")
     funcs = [q]
@@ -305,7 +305,7 @@ def run(p, report, tier):
                ok_tr and ok_col and len(tr) == len(col))
     stree = FuncTree(sq.node)
     inner_res = {t.id for n in ast.walk(sq.node) if isinstance(n, ast.Assign) and isinstance(n.value, ast.Call)
-                 and c01.callname(n.value) == "_query_annotators" for t in n.targets if isinstance(t, ast.Name)}
+                 and c01.callname(n.value) == q.name for t in n.targets if isinstance(t, ast.Name)}
     none_ret = [n for n in ast.walk(sq.node) if isinstance(n, ast.Return) and isinstance(n.value, ast.Name)
                 and n.value.id in inner_res]
     guarded = False
